@@ -507,6 +507,10 @@ JPolyDiv(ev, reg) ==
                      ELSE IF hasR /\ Cardinality(DNames(nb) \cup DNames(db)) <= 1 /\
                              \E k \in 1..Len(db.el) : db.el[k] # EZero /\ UniDeg(r.el[k]) >= UniDeg(db.el[k])
                           THEN "value_degree"
+                     ELSE IF hasR /\ \E k \in 1..Len(db.el) :       \* a single-term divisor divides no term of the remainder
+                             /\ Cardinality(DOMAIN db.el[k]) = 1
+                             /\ \E m \in DOMAIN r.el[k] : MDivides(CHOOSE x \in DOMAIN db.el[k] : TRUE, m)
+                          THEN "value_not_reduced"
                      ELSE "ok"
 \* two registers hold the same value (spellings of one operation)
 JSame(ev, reg) ==
